@@ -702,6 +702,12 @@ func nearTieCase(r *hx.Rand) (string, hx.Case) {
 	n := r.Range(3, 9)
 	sc := scale{wexp: hx.Pick(r, []int{-40, -40, -60, -200, -1000, -1070, 900, 0})}
 	base := hx.Pick(r, []int{0, 10, 100, 1000})
+	if r.Chance(1, 4) {
+		// weights of ordinary size that differ far behind the 9th decimal: (2^40 + k) * 2^-40 = 1 + k * 2^-40 (the
+		// package has a constant float64Epsilon = 1e-9; an improvement by 2^-40 ≈ 9e-13 is still an improvement)
+		sc.wexp = -40
+		base = 1 << 40
+	}
 	var es []rawEdge
 	// a slow direct edge and chains of cheap hops: the later, longer route is better by little
 	for k := r.Range(n, 3*n); k > 0; k-- {
@@ -862,20 +868,21 @@ func Main(run *hx.Run) {
 		}
 	}
 	r := run.R.Fork("random")
-	for k, n := 0, run.Scale(1500); k < n; k++ {
+	for k, n := 0, run.Scale(1200); k < n; k++ {
 		kind, c := randomCase(r)
 		run.Do(kind, c, Exec)
 	}
 	rh := run.R.Fork("history")
-	for k, n := 0, run.Scale(1200); k < n; k++ {
+	for k, n := 0, run.Scale(1000); k < n; k++ {
 		kind, c := historyCase(rh)
 		run.Do(kind, c, Exec)
 	}
 	rk := run.R.Fork("kept")
-	for k, n := 0, run.Scale(900); k < n; k++ {
+	for k, n := 0, run.Scale(700); k < n; k++ {
 		kind, c := keptCase(rk)
 		run.Do(kind, c, Exec)
 	}
+	sweeps(run)
 	rt := run.R.Fork("neartie")
 	for k, n := 0, run.Scale(300); k < n; k++ {
 		kind, c := nearTieCase(rt)
